@@ -35,6 +35,9 @@ type C03Case struct {
 	LimitAct   string `json:"limit_action"`
 	Break      string `json:"break,omitempty"` // "", truncate:<n>, dropdelim
 	SplitCooks bool   `json:"split_cookie_headers,omitempty"`
+	// how the media type of a urlencoded / multipart body is written: parameters after it, letter case
+	CTParam string `json:"content_type_param,omitempty"`
+	CTUpper bool   `json:"content_type_upper,omitempty"`
 }
 
 var c03Names = []string{"a", "A", "b", "Ab", "aB", "", "a.b", "x-y", "foo", "Foo", "a", "b", "a[0]", "é", "n m", "p%q", "k=v", "q&r", "s+t"}
@@ -189,6 +192,11 @@ func genC03(t *rapid.T) *C03Case {
 	c.EncSeed = rapid.SliceOfN(rapid.Byte(), 1, 16).Draw(t, "encseed")
 	switch c.Carrier {
 	case "query", "urlencoded":
+		if c.Carrier == "urlencoded" && rapid.Bool().Draw(t, "ctvariant") {
+			// the same media type as user agents write it
+			c.CTParam = rapid.SampledFrom([]string{"; charset=UTF-8", ";charset=utf-8", " ; charset=ISO-8859-1", ""}).Draw(t, "ctparam")
+			c.CTUpper = rapid.IntRange(0, 3).Draw(t, "ctupper") == 0
+		}
 		c.Pairs = c03Pairs(t, c03Names, c03Values, 0, 8)
 		if rapid.IntRange(0, 5).Draw(t, "arglimit") == 0 {
 			c.ArgLimit = rapid.IntRange(1, 3).Draw(t, "limit")
@@ -265,7 +273,11 @@ func genC03(t *rapid.T) *C03Case {
 func (c *C03Case) body() (ctype string, body string) {
 	switch c.Carrier {
 	case "urlencoded":
-		return "application/x-www-form-urlencoded", c.encodeForm(false)
+		mt := "application/x-www-form-urlencoded"
+		if c.CTUpper {
+			mt = "Application/X-WWW-Form-UrlEncoded"
+		}
+		return mt + c.CTParam, c.encodeForm(false)
 	case "multipart":
 		return "multipart/form-data; boundary=" + c.Boundary, c.multipartBody()
 	case "json":
@@ -567,6 +579,9 @@ func checkC03(c *C03Case) Result {
 	}
 	// labels
 	res.Labels = append(res.Labels, "carrier:"+c.Carrier)
+	if c.CTParam != "" {
+		res.Labels = append(res.Labels, "content-type-with-parameter")
+	}
 	dup := hasDupOrCaseVariant(c.Pairs)
 	if dup {
 		res.Labels = append(res.Labels, "dup-or-case-variant-name")
